@@ -314,7 +314,7 @@ _SPECS = {}
 def specs():
     if not _SPECS:
         _SPECS["u"] = GP.build_specs() + GP.build_vendor_specs()
-        _SPECS["c"] = GP.build_channel_specs()
+        _SPECS["c"] = [s for s in GP.build_channel_specs() if "custom" not in s.tags]
     return _SPECS
 
 
